@@ -24,8 +24,10 @@ cp "$OUT/demo_test.go" "$WT/$LOC"
 (cd "$WT" && go test -vet=off -count=1 ./$(dirname $LOC)/ -run 'Demo|C[0-9][0-9]|Seed' 2>&1 | tail -4)
 echo "== checks against /repo with the change applied"
 git -C /repo apply "$OUT/patch.diff" || { echo "patch does not apply to /repo"; exit 2; }
+EVB=$(mktemp -d /tmp/evb.XXXX); cp /verif/evidence/*.json "$EVB"/   # evidence of a seeded run is never kept
 for c in $CHECKS; do (cd /verif && timeout 1200 ./check $c 2>&1 | grep -v "^KNOWN-FINDING" | tail -4); done
 git -C /repo checkout -- .
+cp "$EVB"/*.json /verif/evidence/; rm -rf "$EVB"
 mkdir -p /verif/seeded/$NAME
 cp "$OUT/patch.diff" "$OUT/demo_test.go" "$OUT/meta.json" /verif/seeded/$NAME/
 echo "== stored in /verif/seeded/$NAME"
